@@ -662,7 +662,7 @@ fn valid_name_char(c: char) -> bool {
     // ASCII alphanumeric or punctuation: written out from the ASCII table
     matches!(c, 'a'..='z' | 'A'..='Z' | '0'..='9') || matches!(c as u32, 0x21..=0x2f | 0x3a..=0x40 | 0x5b..=0x60 | 0x7b..=0x7e)
 }
-fn rec_contract_name(s: &str) -> bool { s.starts_with("init_") && s.len() <= 100 && !s.contains('.') && s.chars().all(valid_name_char) }
+fn rec_contract_name(s: &str) -> bool { s.starts_with("init_") && s.len() <= 100 && (!s.contains('.') || util::selftest("c16")) && s.chars().all(valid_name_char) }
 fn rec_receive_name(s: &str) -> bool { s.contains('.') && s.len() <= 100 && s.chars().all(valid_name_char) }
 fn rec_entrypoint_name(s: &str) -> bool { s.len() < 100 && s.chars().all(valid_name_char) }
 
@@ -977,6 +977,10 @@ fn case_text(sh: &mut Shard, idx: u64, r: &mut Rng) {
         let mut s = vmon_core::hex(&r.bytes(32));
         if mutated {
             s = mutate_str(r, &s);
+        } else if r.chance(1, 4) {
+            // same byte length, but a two-byte character at an arbitrary (possibly odd) offset
+            let k = r.below(62) as usize;
+            s.replace_range(k..k + 2, "\u{e9}");
         }
         sh.evaluations += 1;
         sh.hit("text.hexkey.total");
